@@ -68,8 +68,15 @@ def make_rows(case):
                           'Value': np.nan, 'Dose': dose,
                           'Duration': np.nan if dur is None else dur})
         for cname, cv in ind.get('cov', {}).items():
+            if case['extras'].get('cov_nan_first'):
+                # a record of the covariate without a value precedes the valid one
+                block.append({'ID': _id, 'Time': np.nan, 'Observable': cname,
+                              'Value': np.nan, 'Dose': np.nan, 'Duration': np.nan})
             block.append({'ID': _id, 'Time': np.nan, 'Observable': cname,
                           'Value': cv, 'Dose': np.nan, 'Duration': np.nan})
+            if case['extras'].get('cov_nan_last'):
+                block.append({'ID': _id, 'Time': np.nan, 'Observable': cname,
+                              'Value': np.nan, 'Dose': np.nan, 'Duration': np.nan})
         if case['extras'].get('unrelated_obs') or ind.get('unmeasured'):
             block.append({'ID': _id, 'Time': 0.7, 'Observable': 'weightZ',
                           'Value': 77.0 + ind['id'], 'Dose': np.nan,
@@ -239,6 +246,12 @@ def controller_posterior(case, df, keys):
                                            outputs=list(oo.keys()))
     else:
         c = chi.ProblemModellingController(m, error_models(case))
+    # the user's model object goes on living: what is done to it afterwards does not
+    # reach the controller
+    if case['model'] == 'lib1':
+        m.set_dosing_regimen(9.0, start=0.1, duration=0.2)
+    else:
+        m.set_parameter_names({'p0': 'renamed by the user afterwards'})
     if case.get('fix_before_data'):
         # parameters are fixed before the data are given
         names0 = c.get_parameter_names()
@@ -615,6 +628,42 @@ def build(tier, seed):
                         'extras': {}, 'pop': pop,
                         'cov_names': ['age', 'wt'][:ncov_], 'fix': None,
                         'pop_first': True, 'seed': seed})
+    # designs in which the number of measurements of one observable equals the number
+    # of distinct times of the individual although they are other times (replicates
+    # of one observable, extra times of the other)
+    coincide = [
+        {'A': [(1.0, 2.1), (1.0, 2.4), (2.0, 3.0)], 'B': [(1.0, 1.2), (2.0, 1.9),
+                                                          (3.0, 2.5)]},
+        {'A': [(0.5, 1.1), (0.5, 1.3)], 'B': [(0.5, 2.0), (1.5, 2.2)]},
+        {'A': [(2.0, 3.1), (2.0, 3.3), (2.0, 2.9)], 'B': [(0.5, 1.0), (1.0, 1.4),
+                                                          (2.0, 1.7)]},
+        {'A': [(0.4, 1.0), (1.1, 1.6), (1.9, 2.2)], 'B': [(1.1, 0.7), (1.1, 0.9),
+                                                          (0.4, 1.3)]}]
+    for k_, obs_c in enumerate(coincide):
+        inds = [{'id': 1, 'obs': obs_c},
+                {'id': 2, 'obs': coincide[(k_ + 1) % len(coincide)]}]
+        for (bo, it) in orders(2, 'quick'):
+            for pop in (None, pops['toy2'][0]):
+                (ind_cases if pop is None else hier_cases).append({
+                    'model': 'toy2', 'inds': inds, 'id_type': 'int',
+                    'block_order': bo, 'interleave': it, 'dosing': False,
+                    'extras': {}, 'fix': None, 'pop': pop, 'cov_names': [],
+                    'pop_first': True, 'seed': seed})
+    # covariate records without a value before / after the record with the value
+    for model, pop in (('toy1', pops['toy1'][2]), ('toy1', pops['toy1'][3]),
+                       ('toy2', pops['toy2'][1])):
+        ncov_ = rp.n_cov(pop)
+        for n in (1, 2, 3):
+            inds = individuals(n, model == 'toy2', False, True, seed)
+            for (bo, it) in orders(n, 'quick'):
+                for ex in ({'cov_nan_first': True}, {'cov_nan_last': True},
+                           {'cov_nan_first': True, 'cov_nan_last': True}):
+                    hier_cases.append({
+                        'model': model, 'inds': inds, 'id_type': 'int',
+                        'block_order': bo, 'interleave': it, 'dosing': False,
+                        'extras': dict(ex), 'pop': pop,
+                        'cov_names': ['age', 'wt'][:ncov_], 'fix': None,
+                        'pop_first': True, 'seed': seed})
     # replicate measurements (one observable measured twice at one time)
     for model, pop in (('toy1', None), ('toy2', None), ('toy1', pops['toy1'][0])):
         for n in (1, 2, 3):
@@ -820,3 +869,9 @@ META = {
     'level_note': 'Exhaustive over row-block permutations for <=3 individuals; '
                   'SBML/dosing cases run on RefSimulation.',
 }
+META['level_text'] += (
+    ' Also: outputs= of the controller in every order x outputs preset on the model'
+    ', an individual without usable measurements, observables named like their outp'
+    'uts without a map, covariate records without a value, count-coincidence design'
+    "s, the user's model reconfigured after the controller was built, the plain cal"
+    'l repeated after evaluateS1.')
